@@ -189,6 +189,14 @@ theorem runAction_start (M : Matcher) (cfg : Cfg) (s : AState) (ops : List Op)
       all_goals try rfl
       all_goals try (rw [ih']; done)
       all_goals try (rw [ih']; simp; done)
+      case includeEnd =>
+        split
+        · exact ih' s
+        · split
+          · exact bufferOp_start cfg s _
+          · have hb := bufferOp_start cfg s .popbuf
+            have := ih' (bufferOp cfg s .popbuf)
+            split <;> simp_all
       case unput =>
         rw [ih']; split <;> simp
       case input =>
